@@ -82,7 +82,16 @@ def _item_id(item):
 # ---------------------------------------------------------------------------
 # Generator
 
-enq_kinds = st.sampled_from(["ret", "ret", "ret", "raise", "gate", "partial", "partial-raise"])
+enq_kinds = st.sampled_from(["ret", "ret", "ret", "raise", "gate", "partial", "partial-raise", "raise-badstr"])
+
+
+class BadStrError(Exception):
+    """An exception that cannot be rendered"""
+
+    def __str__(self):
+        raise RuntimeError("cannot render this exception")
+
+    __repr__ = __str__
 
 
 @st.composite
@@ -201,7 +210,7 @@ def run_program(prog, chooser, lines=False, policy=(), max_steps=150000):
 
     def make_task(kind, tid):
         info = {"kind": kind, "begun": 0, "ended": 0, "put_phase": None, "put_epoch": None,
-                "ret": object(), "exc": ValueError("task %d" % tid), "future": None, "by": None}
+                "ret": object(), "exc": BadStrError() if kind == "raise-badstr" else ValueError("task %d" % tid), "future": None, "by": None}
         tasks[tid] = info
         gate = None
         if kind == "gate":
@@ -231,7 +240,7 @@ def run_program(prog, chooser, lines=False, policy=(), max_steps=150000):
                     waits.wait()
                 if opens is not None:
                     opens.set()
-                if kind in ("raise", "partial-raise"):
+                if kind in ("raise", "partial-raise", "raise-badstr"):
                     raise info["exc"]
                 return info["ret"]
             finally:
@@ -450,9 +459,9 @@ def run_program(prog, chooser, lines=False, policy=(), max_steps=150000):
             return
         if not info["ended"]:
             bad("C09/future-early", "future of task %d completed before its body ended" % tid)
-        if info["kind"] in ("raise", "partial-raise"):
-            if outcome != ("raised", info["exc"]) or outcome[1] is not info["exc"]:
-                bad("C09/future-outcome", "future of raising task %d gave %r" % (tid, outcome))
+        if info["kind"] in ("raise", "partial-raise", "raise-badstr"):
+            if outcome[0] != "raised" or outcome[1] is not info["exc"]:
+                bad("C09/future-outcome", "future of raising task %d gave (%s, %s)" % (tid, outcome[0], type(outcome[1]).__name__))
         else:
             if outcome[0] != "value" or outcome[1] is not info["ret"]:
                 bad("C09/future-outcome", "future of task %d gave %r instead of the returned object" % (tid, outcome))
